@@ -291,6 +291,21 @@ def bounded(ctx, b):
         b.guard(("sami-order", order), so, sample={"order_of_first_appearance": order})
 
 
+def bounded_inline_lang(ctx, b):
+    """SAMI paragraphs that name their language themselves (lang= on the P element, no class)"""
+    for codes in (("en", "fr"), ("fr", "en"), ("en-US", "fr-FR"), ("en-US", "en-GB"), ("en", "en-GB")):
+        def one(codes=codes):
+            body = "".join(f'<SYNC start="{1000 * (k + 1)}">' + "".join(f'<P lang="{c_}">{c_} {k}</P>' for c_ in codes) + "</SYNC>" for k in range(2))
+            cs = SAMIReader().read(f"<SAMI><HEAD></HEAD><BODY>{body}</BODY></SAMI>")
+            got = {l: [c_.get_text() for c_ in cs.get_captions(l)] for l in cs.get_languages()}
+            # (the reader files an inline lang= under its primary subtag - pinned by tests/test_sami.py - so the label may
+            # be shortened; what may not happen is that the cues of two languages end up in one list)
+            lists = sorted(got.values())
+            exp = sorted([f"{c_} {k}" for k in range(2)] for c_ in codes)
+            return lists == exp, {"codes": codes, "read": got, "expected_one_list_per_language": exp}
+        b.guard(("inline_lang", codes), one, sample={"codes": codes, "inline_lang_codes_sharing_a_primary_subtag": len({c_[:2] for c_ in codes}) < len(codes)})
+
+
 def run(ctx):
     P = ctx.prove
     P("base.CaptionSet.get_languages", get_languages_order, functions=[CS.get_languages])
@@ -303,6 +318,8 @@ def run(ctx):
     P("webvtt.WebVTTWriter.write/language", webvtt_write_language, functions=[WebVTTWriter.write], crosscheck=False)
     import props.C19 as C19
     P("base.merge_concurrent_captions", C19.mcc, functions=[C19.merge_concurrent_captions], setup_interp=C19.setup, crosscheck=False)
+    ctx.bounded("inline_lang", "SAMI documents whose paragraphs carry lang= themselves, for five pairs of codes (two of them sharing "
+                "their primary subtag): one cue list per language, none shared", lambda b: bounded_inline_lang(ctx, b))
     ctx.bounded("multi_language", "caption sets with 1-4 languages, cues sorted and non-overlapping within a language, with "
                 "interleaved / coinciding / disjoint times, a later language starting earlier, an empty first language: SAMI "
                 "output has non-decreasing SYNC blocks with each paragraph in the block of its start under its own class, "
